@@ -90,7 +90,12 @@ void run_iters(pbt::Source& src, bool dp, bool ds) {
         st.rank_seed = ss.rank_seed;
         salt = ss.rank_seed * 131 + 3;
         sh = ss;
-        pbt::label("gen=scale");
+        // cost bound (non-contiguous iterators, owning elements): every sequence is cut to <= 3000 elements and the
+        // tuple to <= ~20000 (the drawn keys are sorted afterwards, so any truncation is again a legal tuple)
+        size_t cap = std::max<size_t>(1, std::min<size_t>(3000, 20000 / (size_t)sh.m));
+        for (auto& k : sh.keys)
+            if (k.size() > cap) k.resize(cap);
+        pbt::label("gen=scale(capped)");
     }
     // labels
     const int m = sh.m;
@@ -120,6 +125,7 @@ void run_iters(pbt::Source& src, bool dp, bool ds) {
                              << " elements; pairs in a std::deque\n");
 
     it::ItStats ist;
+    ist.rank_budget = 160; // per tuple: all ranks up to N = 159, else 160 of the candidate ranks (thin_ranks)
     const bool b = kind >= 2;
     switch (ty) {
     case 0: b ? it::run_it_int_b(kind, sh.keys, cmpmode, dp, ds, salt, st, ist) : it::run_it_int_a(kind, sh.keys, cmpmode, dp, ds, salt, st, ist); break;
@@ -127,7 +133,7 @@ void run_iters(pbt::Source& src, bool dp, bool ds) {
     default: b ? it::run_it_recs_b(kind, sh.keys, cmpmode, dp, ds, salt, st, ist) : it::run_it_recs_a(kind, sh.keys, cmpmode, dp, ds, salt, st, ist); break;
     }
     if (ist.mid_block) pbt::label("begin_mid_block");
-    pbt::label(st.sampled ? "ranks_sampled" : "ranks_all");
+    pbt::label(ist.thinned ? (st.sampled ? "ranks_160_of_boundary_sample" : "ranks_160_of_all") : "ranks_all");
     PBT_LOG("ranks checked: " << st.ranks_checked << (st.sampled ? " (sampled)" : " (all)") << "\n");
     if (st.cut_multi) pbt::label("cut_class_in>=2_seqs");
     if (st.cut3) pbt::label("cut_class_in>=3_seqs");
